@@ -81,7 +81,11 @@ CompressedExact(rec) ==
 
 (* ---- /Size = highest object number + 1 (et is trimmed to the highest object number with an entry) ---- *)
 SizeNotTooSmall(rec) == rec.size >= Len(rec.et)
-SizeNotTooBig(rec) == rec.size <= Len(rec.et)
+(* An update section cannot state less than the section it extends (SizeMonotone), so a /Size that is too big in an older  *)
+(* section is charged to that section only (the file written first is judged on its own): the newest /Size may be as    *)
+(* big as the previous one.                                                                                             *)
+PrevSize(rec) == IF Len(rec.secs) > 1 THEN Sec(rec, 2).size ELSE 0
+SizeNotTooBig(rec) == rec.size <= (IF PrevSize(rec) > Len(rec.et) THEN PrevSize(rec) ELSE Len(rec.et))
 
 (* ---- free list ---- *)
 Free(rec) == {n \in Nums(rec) : T(rec, n) = 0}
